@@ -568,3 +568,105 @@ def _(I, m):
     return Agg([VecObj([tup(e.f[0], e.f[1]) for e in m.d.values()]), 0], "ListIter")
 for _t in ("std::collections::hash_map::Iter", "hash_map::Iter", "std::collections::hash_map::Keys", "std::collections::hash_map::Values", "hash_map::Keys", "hash_map::Values", "std::collections::hash_map::IntoIter"):
     S[f"<{_t} as Iterator>::next"] = it_next
+
+
+@summary("LazyLock::new", "std::sync::LazyLock::new")
+def _(I, f): return Agg([f, None], "LazyLock")
+@summary("<LazyLock as Deref>::deref", "LazyLock::force")
+def _(I, p):
+    l = I.deref(p)
+    if l.f[1] is None:
+        l.f[1] = I.call_closure(l.f[0], Agg([], "tuple"))
+    u = unwrap_ptr(p)
+    return Ptr(u.cell, u.path + (1,))
+@summary("HashSet::contains", "BTreeSet::contains")
+def _(I, sp, k):
+    m = I.deref(sp)
+    s_ = as_str(I, k)
+    kb = concrete_bytes(s_)
+    if kb is not None: return kb in m.d
+    # symbolic key: compare with every member
+    r = False
+    for mk in m.d:
+        r = _or(r, bytes_eq(I, s_, SliceRef(VecObj(list(mk)), 0, len(mk), True)))
+    return r
+@summary("HashSet::new", "<HashSet as Default>::default")
+def _(I): return MapObj("HashSet")
+@summary("HashSet::insert")
+def _(I, sp, k):
+    m = I.deref(sp); kb = _key(I, k)
+    if kb in m.d: return False
+    m.d[kb] = Agg([k, UNIT], "tuple"); return True
+@summary("HashSet::len")
+def _(I, sp): return len(I.deref(sp).d)
+@summary("HashSet::iter", "<&HashSet as IntoIterator>::into_iter")
+def _(I, sp):
+    m = I.deref(sp)
+    return Agg([VecObj([Ptr(Cell(e), (0,)) for e in m.d.values()]), 0], "ListIter")
+@summary("<HashSet as IntoIterator>::into_iter")
+def _(I, m): return Agg([VecObj([e.f[0] for e in m.d.values()]), 0], "ListIter")
+
+
+@summary("HashSet::difference")
+def _(I, a, b):
+    ma, mb = I.deref(a), I.deref(b)
+    return Agg([VecObj([Ptr(Cell(e), (0,)) for k, e in ma.d.items() if k not in mb.d]), 0], "ListIter")
+@summary("HashSet::intersection")
+def _(I, a, b):
+    ma, mb = I.deref(a), I.deref(b)
+    return Agg([VecObj([Ptr(Cell(e), (0,)) for k, e in ma.d.items() if k in mb.d]), 0], "ListIter")
+for _t in ("std::collections::hash_set::Difference", "hash_set::Difference", "std::collections::hash_set::Iter", "hash_set::Iter", "std::collections::hash_set::IntoIter", "std::collections::hash_set::Intersection"):
+    S[f"<{_t} as Iterator>::next"] = it_next
+
+
+# formatting is not modelled: a formatted String is a placeholder (its content never influences control flow in the front-end)
+def _format_placeholder(I, *a): return VecObj(list(b"<formatted>"), "String")
+
+
+for _n in ("alloc::fmt::format", "std::fmt::format", "fmt::format", "format", "alloc::fmt::format::format_inner", "format_inner"):
+    S[_n] = _format_placeholder
+S["<String as core::fmt::Write>::write_fmt"] = S["<String as Write>::write_fmt"] = lambda I, p, a: ok(UNIT)
+
+
+def _unicode_property_names(I):
+    """pest::unicode::unicode_property_names(): the three static name tables are `stringify!`ed macro arguments whose data lives
+    in rustc allocations the MIR dump does not expose; the names are read from pest/src/unicode/mod.rs (as check C16 does)"""
+    from props.c16 import read_names
+    binary, cat, scr = read_names()
+    items = [SliceRef(VecObj(list(n.encode()), "static"), 0, len(n), True) for n in binary + cat + scr]
+    return boxed(Agg([VecObj(items), 0], "ListIter"))
+
+
+S["unicode_property_names"] = S["unicode::unicode_property_names"] = S["pest::unicode::unicode_property_names"] = _unicode_property_names
+
+
+def parse_int_sym(I, s, w, signed):
+    """str::parse::<uN/iN>() on possibly symbolic text: optional sign, decimal digits, overflow -> Err (forks per byte)"""
+    E = lambda: Enum("Result", "Err", 1, [Agg([Enum("IntErrorKind", "InvalidDigit", 1)], "ParseIntError")])
+    items = list(s.items())
+    if not items: return E()
+    neg = False; k = 0
+    b0 = items[0]
+    if I.W.branch((b0 == 43) if is_sym(b0) else b0 == 43): k = 1
+    elif I.W.branch((b0 == 45) if is_sym(b0) else b0 == 45):
+        if not signed: return E()
+        neg = True; k = 1
+    if k == len(items): return E()
+    acc = 0
+    for b in items[k:]:
+        isd = z3.And(z3.UGE(b, 48), z3.ULE(b, 57)) if is_sym(b) else 48 <= b <= 57
+        if not I.W.branch(isd): return E()
+        d = (z3.ZeroExt(120, b) - 48) if is_sym(b) else b - 48
+        if is_sym(acc) or is_sym(d):
+            a128 = acc if is_sym(acc) else z3.BitVecVal(acc, 128)
+            d128 = d if is_sym(d) else z3.BitVecVal(d, 128)
+            acc = a128 * 10 + d128
+        else:
+            acc = acc * 10 + d
+        lim = (1 << (w - 1)) + (1 if neg else 0) if signed else (1 << w)
+        over = z3.UGE(acc, lim) if is_sym(acc) else acc >= lim
+        if I.W.branch(over): return E()
+    if is_sym(acc):
+        v = z3.Extract(w - 1, 0, acc)
+        return ok(-v if neg else v)
+    return ok((-acc if neg else acc) & ((1 << w) - 1))
